@@ -69,20 +69,14 @@ def rewriteLine (data : List (Str × Option Str)) (line : Str) : Str :=
   | none => line
   | some key =>
     match dget key data with
-    | some v => key ++ [' '] ++ valStr v
+    | some v => fmtEntry (key, v)
     | none => line
 
 /-- first tokens of the lines -/
 def lineKeys (old : List Str) : List Str := old.filterMap firstTok
 
-/-- an appended entry: `None` gives the bare key -/
-def fmtEntry (kv : Str × Option Str) : Str :=
-  match kv.2 with
-  | none => kv.1
-  | some x => kv.1 ++ [' '] ++ x
-
-/-- the merge law: existing keys are replaced in place, the keys that no existing line starts with
-    are appended in dict order -/
+/-- the merge law: existing keys are replaced in place (`KEY value`, or the bare `KEY` for a `None` value —
+    `fmtEntry`), the keys that no existing line starts with are appended in dict order in the same format -/
 def mergeSpec (data : List (Str × Option Str)) (old : List Str) : List Str :=
   old.map (rewriteLine data) ++ (data.filter (fun kv => decide (kv.1 ∉ lineKeys old))).map fmtEntry
 
@@ -143,7 +137,7 @@ theorem mergeNew_eq (done : List Str) (data : List (Str × Option Str)) :
     obtain ⟨k, v⟩ := kv
     by_cases hk : k ∈ done
     · simp [mergeNew, hk, ih]
-    · cases v <;> simp [mergeNew, hk, ih, fmtEntry]
+    · simp [mergeNew, hk, ih]
 
 theorem mergeData_eq_spec (u : Upd) (old : List Str) (hl : u.isList = false)
     (htok : ∀ l ∈ old, (firstTok l).isSome = true) :
@@ -172,10 +166,10 @@ theorem cp2k_edit_exact_present (u : Upd) (st : St) (i : Nat) (n : Node)
       st'.arena.length = st.arena.length ∧ (∀ j, j ≠ i → st'.arena[j]? = st.arena[j]?) ∧
       st'.arena[i]? = some { n with
         data := if u.replace then u.data.map (·.1) else mergeSpec u.data n.data,
-        settings := if u.replace then u.settings else n.settings ++ u.settings } := by
+        settings := newSettings u.settings u.replace n.settings } := by
   have hi := getElem?_lt_of_some _ _ _ hn
   by_cases hr : u.replace = true
-  · refine ⟨{ st with arena := st.arena.set i { n with data := u.data.map (·.1), settings := u.settings } }, ?_, rfl, rfl, ?_, ?_, ?_⟩
+  · refine ⟨{ st with arena := st.arena.set i { n with data := u.data.map (·.1), settings := newSettings u.settings true n.settings } }, ?_, rfl, rfl, ?_, ?_, ?_⟩
     · simp [updateNode, href, hn, hr]
     · simp
     · intro j hj
@@ -185,13 +179,12 @@ theorem cp2k_edit_exact_present (u : Upd) (st : St) (i : Nat) (n : Node)
     rcases hmode with h | ⟨hl, htok⟩
     · exact absurd h hr
     · have hm := mergeData_eq_spec u n.data hl htok
-      refine ⟨{ st with arena := st.arena.set i { n with data := mergeSpec u.data n.data, settings := n.settings ++ u.settings } }, ?_, rfl, rfl, ?_, ?_, ?_⟩
+      refine ⟨{ st with arena := st.arena.set i { n with data := mergeSpec u.data n.data, settings := newSettings u.settings false n.settings } }, ?_, rfl, rfl, ?_, ?_, ?_⟩
       · simp [updateNode, href, hn, hr', hm]
       · simp
       · intro j hj
         simp [Ne.symm hj]
       · simp [hi, hr']
-
 
 /-! ### tokens -/
 
@@ -261,11 +254,16 @@ theorem firstTok_isTok (l key : Str) (h : firstTok l = some key) : IsTok key := 
 /-! ### idempotence of the merge law -/
 
 /-- the guard on an update's `data` under which a second merge changes nothing:
-    a real dict (distinct keys), keys are single tokens, no `None` values -/
+    a real dict (distinct keys) whose keys are single tokens (non-empty, no whitespace) -/
 structure DataOk (data : List (Str × Option Str)) : Prop where
   nodup : (data.map (·.1)).Nodup
   tok : ∀ kv ∈ data, IsTok kv.1
-  val : ∀ kv ∈ data, kv.2 ≠ none
+
+theorem firstTok_fmtEntry (kv : Str × Option Str) (htok : IsTok kv.1) : firstTok (fmtEntry kv) = some kv.1 := by
+  obtain ⟨k, v⟩ := kv
+  cases v with
+  | none => simpa [fmtEntry] using firstTok_tok k htok
+  | some x => simpa [fmtEntry] using firstTok_tok_space k x htok
 
 theorem firstTok_rewriteLine (data : List (Str × Option Str)) (l : Str) :
     firstTok (rewriteLine data l) = firstTok l := by
@@ -275,9 +273,9 @@ theorem firstTok_rewriteLine (data : List (Str × Option Str)) (l : Str) :
     cases hd : dget key data with
     | none => simp [rewriteLine, hk, hd]
     | some v =>
-      have e : rewriteLine data l = key ++ [' '] ++ valStr v := by simp [rewriteLine, hk, hd]
+      have e : rewriteLine data l = fmtEntry (key, v) := by simp [rewriteLine, hk, hd]
       rw [e]
-      exact firstTok_tok_space key (valStr v) (firstTok_isTok l key hk)
+      exact firstTok_fmtEntry (key, v) (firstTok_isTok l key hk)
 
 theorem rewriteLine_idem (data : List (Str × Option Str)) (l : Str) :
     rewriteLine data (rewriteLine data l) = rewriteLine data l := by
@@ -291,29 +289,18 @@ theorem rewriteLine_idem (data : List (Str × Option Str)) (l : Str) :
       have : rewriteLine data l = l := by simp [rewriteLine, hk, hd]
       rw [this, this]
     | some v =>
-      have e : rewriteLine data l = key ++ [' '] ++ valStr v := by simp [rewriteLine, hk, hd]
-      have h2 := firstTok_tok_space key (valStr v) (firstTok_isTok l key hk)
+      have e : rewriteLine data l = fmtEntry (key, v) := by simp [rewriteLine, hk, hd]
+      have h2 := firstTok_fmtEntry (key, v) (firstTok_isTok l key hk)
       rw [e]
       simp only [rewriteLine, h2, hd]
-
-theorem firstTok_fmtEntry (kv : Str × Option Str) (htok : IsTok kv.1) : firstTok (fmtEntry kv) = some kv.1 := by
-  obtain ⟨k, v⟩ := kv
-  cases v with
-  | none => simpa [fmtEntry] using firstTok_tok k htok
-  | some x => simpa [fmtEntry] using firstTok_tok_space k x htok
 
 theorem rewriteLine_fmtEntry (data : List (Str × Option Str)) (kv : Str × Option Str) (hmem : kv ∈ data)
     (hok : DataOk data) : rewriteLine data (fmtEntry kv) = fmtEntry kv := by
   have hk := firstTok_fmtEntry kv (hok.tok kv hmem)
-  have hv := hok.val kv hmem
   obtain ⟨k, v⟩ := kv
   have hd := dget_of_mem_nodup k v data hmem hok.nodup
-  cases v with
-  | none => exact absurd rfl hv
-  | some x =>
-    unfold rewriteLine
-    simp only [hk, hd]
-    simp [fmtEntry, valStr]
+  unfold rewriteLine
+  simp only [hk, hd]
 
 theorem lineKeys_append (a b : List Str) : lineKeys (a ++ b) = lineKeys a ++ lineKeys b := by
   simp [lineKeys]
@@ -384,15 +371,75 @@ theorem mergeSpec_tok (data : List (Str × Option Str)) (old : List Str) (hok : 
     rw [firstTok_fmtEntry kv (hok.tok kv (List.mem_filter.mp hkv).1)]
     rfl
 
-/-! ### Theorem 3: idempotence of an update of a present target — what is true of the code -/
+/-! ### Theorem 3: idempotence of an update of a present target -/
 
-/-- PARTIAL: a second application of the same update entry to a present target changes nothing, provided
-    `replace` is set, or no settings are given and `data` is a dict of token keys without `None` values.
-    (Outside this guard the code is not idempotent: see the counterexamples below.) -/
-theorem cp2k_edit_idempotent_partial (u : Upd) (st st1 : St) (i : Nat)
+theorem newSettings_idem (req : Option (List Str)) (r : Bool) (old : List Str) :
+    newSettings req r (newSettings req r old) = newSettings req r old := by
+  cases req with
+  | none => rfl
+  | some s =>
+    cases r with
+    | true => simp [newSettings]
+    | false =>
+      simp only [newSettings, Bool.false_eq_true, if_false]
+      have : s.filter (fun x => decide (x ∉ old ++ s.filter (fun x => decide (x ∉ old)))) = [] := by
+        rw [List.filter_eq_nil_iff]
+        intro x hx
+        simp only [decide_eq_true_eq, Decidable.not_not, List.mem_append, List.mem_filter]
+        by_cases h : x ∈ old
+        · exact Or.inl h
+        · exact Or.inr ⟨hx, h⟩
+      rw [this]; simp
+
+/-- list data in merge mode: the first loop succeeds only if no line starts with an element of the list,
+    and then leaves every line alone -/
+theorem mergeOld_list (data : List (Str × Option Str)) (old : List Str) (r : List Str × List Str)
+    (h : mergeOld data true old = .ok r) : r = (old, []) := by
+  induction old generalizing r with
+  | nil => simp [mergeOld] at h; exact h.symm
+  | cons l t ih =>
+    unfold mergeOld at h
+    cases hk : firstTok l with
+    | none => simp [hk] at h
+    | some key =>
+      simp only [hk] at h
+      cases hd : dget key data with
+      | some v => simp [hd] at h
+      | none =>
+        simp only [hd] at h
+        cases hm : mergeOld data true t with
+        | error e => simp [hm] at h
+        | ok r' =>
+          have := ih r' hm
+          subst this
+          simp [hm] at h
+          exact h.symm
+
+/-- list data in merge mode succeeds only for the empty list, and changes nothing -/
+theorem mergeData_list (u : Upd) (old nd : List Str) (hl : u.isList = true) (h : mergeData u old = .ok nd) :
+    nd = old := by
+  unfold mergeData at h
+  rw [hl] at h
+  cases hm : mergeOld u.data true old with
+  | error e => simp [hm] at h
+  | ok r =>
+    have := mergeOld_list _ _ _ hm
+    subst this
+    simp only [hm] at h
+    cases hdta : u.data with
+    | nil => simp [hdta, mergeNew] at h; exact h.symm
+    | cons kv t => obtain ⟨k, v⟩ := kv; simp [hdta, mergeNew] at h
+
+/-- Theorem 3 (FULL for present targets, code after fix 6e4f7f3): a second application of the same update
+    entry to a present target returns the same state.  Settings may be absent, empty or non-empty (the filter
+    of the second application is empty), `None` values are allowed (the bare key line is found again by its
+    first token and rewritten to the bare key).  Remaining guard: in merge mode with dict data, the dict has
+    distinct keys that are non-empty whitespace-free tokens (`DataOk`); nothing is required in replace
+    mode or for list data. -/
+theorem cp2k_edit_idempotent (u : Upd) (st st1 : St) (i : Nat)
     (href : dget u.target st.ref = some i)
     (h1 : updateNode u st = .ok st1)
-    (hg : u.replace = true ∨ (u.settings = [] ∧ u.isList = false ∧ DataOk u.data)) :
+    (hg : u.replace = true ∨ u.isList = true ∨ DataOk u.data) :
     updateNode u st1 = .ok st1 := by
   unfold updateNode at h1
   simp only [href] at h1
@@ -405,31 +452,38 @@ theorem cp2k_edit_idempotent_partial (u : Upd) (st st1 : St) (i : Nat)
     · simp only [hr, if_true] at h1
       injection h1 with h1
       subst h1
-      simp [updateNode, href, hi, hr]
+      simp [updateNode, href, hi, hr, newSettings_idem]
     · have hr' : u.replace = false := by simpa using hr
-      rcases hg with h | ⟨hs, hl, hok⟩
-      · exact absurd h hr
-      · simp only [hr', Bool.false_eq_true, if_false] at h1
-        cases hm : mergeData u n.data with
-        | error e => simp [hm] at h1
-        | ok nd =>
-          simp only [hm] at h1
-          injection h1 with h1
-          subst h1
+      simp only [hr', Bool.false_eq_true, if_false] at h1
+      cases hm : mergeData u n.data with
+      | error e => simp [hm] at h1
+      | ok nd =>
+        simp only [hm] at h1
+        injection h1 with h1
+        subst h1
+        by_cases hl : u.isList = true
+        · have hnd := mergeData_list u n.data nd hl hm
+          subst hnd
+          simp [updateNode, href, hi, hr', hm, newSettings_idem]
+        · have hl' : u.isList = false := by simpa using hl
+          have hok : DataOk u.data := by
+            rcases hg with h | h | h
+            · exact absurd h hr
+            · exact absurd h hl
+            · exact h
           have htok : ∀ l ∈ n.data, (firstTok l).isSome = true := by
             unfold mergeData at hm
             cases hmo : mergeOld u.data u.isList n.data with
             | error e => simp [hmo] at hm
             | ok r => exact mergeOld_ok_tok _ _ _ r hmo
           have hnd : nd = mergeSpec u.data n.data := by
-            have := mergeData_eq_spec u n.data hl htok
+            have := mergeData_eq_spec u n.data hl' htok
             rw [hm] at this
             injection this
-          have h2 := mergeData_eq_spec u (mergeSpec u.data n.data) hl (mergeSpec_tok _ _ hok htok)
+          have h2 := mergeData_eq_spec u (mergeSpec u.data n.data) hl' (mergeSpec_tok _ _ hok htok)
           rw [mergeSpec_idem _ _ hok] at h2
           subst hnd
-          simp [updateNode, href, hi, hr', h2, hs]
-
+          simp [updateNode, href, hi, hr', h2, newSettings_idem]
 
 /-! ### Theorem 2b: an update of an ABSENT target only adds nodes -/
 
@@ -626,25 +680,90 @@ theorem join_splitArrowGo (s acc : Str) (dash : Bool) :
 theorem join_splitArrow (s : Str) : join arrow (splitArrow s) = s := by
   simp [splitArrow, join_splitArrowGo]
 
-/-- Theorem 2b.  An update whose target is not a key of `node_ref` never fails on a well-formed state;
-    the new state extends the old one (`Ext`: no existing node's title / settings / data / parent / level
-    changes, children lists and roots only grow, keys keep their nodes), at least one node is added, and the
-    last node is the requested one: registered under the target, titled with the last segment, carrying
-    the requested settings — and, as data, the KEYS of the requested dict only (`list(data)`). -/
+/-- Theorem 2b (code after fix 6e4f7f3).  An update whose target is not a key of `node_ref` never fails on a
+    well-formed state; the new state extends the old one (`Ext`: no existing node's title / settings / data /
+    parent / level changes, children lists and roots only grow, keys keep their nodes), at least one node is
+    added, and the last node is the requested one: registered under the target, titled with the last
+    segment, carrying the requested settings (`[]` when none were requested) and, as data, the formatted
+    entries of the requested dict — `KEY value`, or the bare `KEY` for a `None` value (list data: the lines). -/
 theorem cp2k_edit_exact_absent (u : Upd) (st : St) (hwf : RefOk st) (habs : dget u.target st.ref = none) :
     ∃ st', updateNode u st = .ok st' ∧ RefOk st' ∧ Ext st st' ∧ st.arena.length < st'.arena.length ∧
       ∃ nn, st'.arena[st'.arena.length - 1]? = some nn ∧ dget u.target st'.ref = some (st'.arena.length - 1) ∧
-        (splitArrow u.target).getLast? = some nn.title ∧ nn.settings = u.settings ∧
-        nn.data = u.data.map (·.1) ∧ nn.children = [] := by
+        (splitArrow u.target).getLast? = some nn.title ∧ nn.settings = u.settings.getD [] ∧
+        nn.data = u.data.map fmtEntry ∧ nn.children = [] := by
   have hne : (splitArrow u.target).reverse ≠ [] := by
     simpa [splitArrow] using splitArrowGo_ne_nil u.target [] false
   have hkey : join arrow (splitArrow u.target).reverse.reverse = u.target := by
     rw [List.reverse_reverse, join_splitArrow]
   obtain ⟨st', h1, hwf', hext, hlt, _, nn, hnn, hget, hhead, hs, hd, hc⟩ :=
-    addNode_spec (splitArrow u.target).reverse u.settings (u.data.map (·.1)) st hne hwf (by rw [hkey]; exact habs)
+    addNode_spec (splitArrow u.target).reverse (u.settings.getD []) (u.data.map fmtEntry) st hne hwf (by rw [hkey]; exact habs)
   refine ⟨st', by simp [updateNode, habs, h1], hwf', hext, hlt, nn, hnn, by rw [hkey] at hget; exact hget, ?_, hs, hd, hc⟩
   rw [← hhead, List.head?_reverse]
 
+/-- merging a dict into the lines `_format_data` made of it changes nothing -/
+theorem mergeSpec_formatted (data : List (Str × Option Str)) (hok : DataOk data) :
+    mergeSpec data (data.map fmtEntry) = data.map fmtEntry := by
+  have hkeys : lineKeys (data.map fmtEntry) = data.map (·.1) := lineKeys_map_fmt data data (fun _ h => h) hok
+  have hnil : data.filter (fun kv => decide (kv.1 ∉ lineKeys (data.map fmtEntry))) = [] := by
+    rw [List.filter_eq_nil_iff]
+    intro kv hkv
+    rw [hkeys]
+    simp only [decide_eq_true_eq, Decidable.not_not]
+    exact List.mem_map.mpr ⟨kv, hkv, rfl⟩
+  unfold mergeSpec
+  rw [hnil, List.map_map]
+  simp only [List.map_nil, List.append_nil]
+  apply List.map_congr_left
+  intro kv hkv
+  exact rewriteLine_fmtEntry data kv hkv hok
+
+theorem newSettings_getD (req : Option (List Str)) : newSettings req false (req.getD []) = req.getD [] := by
+  cases req with
+  | none => rfl
+  | some s =>
+    simp only [newSettings, Bool.false_eq_true, if_false, Option.getD_some]
+    have : s.filter (fun x => decide (x ∉ s)) = [] := by
+      rw [List.filter_eq_nil_iff]; intro x hx; simpa using hx
+    rw [this]; simp
+
+theorem St.ext' (a b : St) (h1 : a.arena = b.arena) (h2 : a.roots = b.roots) (h3 : a.ref = b.ref) : a = b := by
+  cases a; cases b; simp_all
+
+/-- Theorem 3, absent → present (the second half of the former finding new-section-drops-values): after an
+    update has CREATED its target from dict data, applying the same entry again (now a merge into the
+    present section) returns the same state.  Guards: merge mode (`replace = false`; with `replace = true`
+    the second application stores the dict KEYS only — "data is already formatted" — which differs from the
+    created `KEY value` lines), dict data with distinct token keys. -/
+theorem cp2k_edit_idempotent_absent (u : Upd) (st st1 : St) (hwf : RefOk st) (habs : dget u.target st.ref = none)
+    (hr : u.replace = false) (hl : u.isList = false) (hok : DataOk u.data)
+    (h1 : updateNode u st = .ok st1) : updateNode u st1 = .ok st1 := by
+  obtain ⟨st', h1', _, _, _, nn, hnn, hget, _, hs, hd, _⟩ := cp2k_edit_exact_absent u st hwf habs
+  rw [h1] at h1'
+  injection h1' with h1'
+  subst h1'
+  have htok : ∀ l ∈ nn.data, (firstTok l).isSome = true := by
+    intro l hlm
+    rw [hd] at hlm
+    obtain ⟨kv, hkv, e⟩ := List.mem_map.mp hlm
+    subst e
+    rw [firstTok_fmtEntry kv (hok.tok kv hkv)]
+    rfl
+  obtain ⟨st2, h2, hroots, href, hlen, hoth, hent⟩ :=
+    cp2k_edit_exact_present u st1 (st1.arena.length - 1) nn hget hnn (Or.inr ⟨hl, htok⟩)
+  have hnode : ({ nn with data := if u.replace then u.data.map (·.1) else mergeSpec u.data nn.data,
+                          settings := newSettings u.settings u.replace nn.settings } : Node) = nn := by
+    rw [hr, hd, hs, mergeSpec_formatted u.data hok, newSettings_getD]
+    simp only [Bool.false_eq_true, if_false]
+    rw [← hd, ← hs]
+  rw [hnode] at hent
+  rw [h2]
+  congr 1
+  apply St.ext' _ _ _ hroots href
+  apply List.ext_getElem?
+  intro j
+  by_cases hj : j = st1.arena.length - 1
+  · subst hj; rw [hent, hnn]
+  · exact hoth j hj
 
 /-! ### removal -/
 
@@ -817,60 +936,152 @@ def stMD : St :=
 
 example : (readText tplMD).map RS.toSt = .ok stMD := by decide
 
+/-- `{"MOTION->MD": {"settings": ["X"]}}` -/
 def updSettings : Upd :=
-  { target := "MOTION->MD".toList, settings := ["X".toList], replace := false, data := [], isList := false }
+  { target := "MOTION->MD".toList, settings := some ["X".toList], replace := false, data := [], isList := false }
 
-/-- COUNTEREXAMPLE (idempotence), text level: `{"MOTION->MD": {"settings": ["X"]}}` applied to the template and
-    then to its own output prints `&MD X` and then `&MD X X` (`node.settings += settings`). -/
-theorem cp2k_edit_idempotent_counterexample :
+/-- `{"MOTION->MD": {"data": {"FOO": None}}}` -/
+def updNone : Upd :=
+  { target := "MOTION->MD".toList, settings := none, replace := false, data := [("FOO".toList, none)], isList := false }
+
+/-- `{"MOTION->PRINT->EACH": {"data": {"MD": "5"}}}` -/
+def updEach : Upd :=
+  { target := "MOTION->PRINT->EACH".toList, settings := none, replace := false,
+    data := [("MD".toList, some "5".toList)], isList := false }
+
+/-- `&A / &K Y / V 2`: a section with a parameter -/
+def tplKY : Str := "&A\n&K Y\nV 2\n&END\n&END\n".toList
+
+/-- `{"A->K": {"replace": True, "data": ["W 9"]}}` (no "settings" entry) -/
+def updReplace : Upd :=
+  { target := "A->K".toList, settings := none, replace := true, data := [("W 9".toList, none)], isList := true }
+
+/-! #### the repaired behaviour (code after fix 6e4f7f3), text level -/
+
+/-- settings are added once: `&MD X` after the first and after the second application -/
+theorem cp2k_fixed_settings_once :
     updateInput tplMD [updSettings] [] = .ok "&MOTION\n  &MD X\n    STEPS 10\n  &END MD\n&END MOTION\n".toList ∧
     updateInput "&MOTION\n  &MD X\n    STEPS 10\n  &END MD\n&END MOTION\n".toList [updSettings] [] =
+      .ok "&MOTION\n  &MD X\n    STEPS 10\n  &END MD\n&END MOTION\n".toList := by
+  constructor <;> decide
+
+/-- a `None` value gives the bare key on the first and on the second application -/
+theorem cp2k_fixed_none_value :
+    updateInput tplMD [updNone] [] = .ok "&MOTION\n  &MD\n    STEPS 10\n    FOO\n  &END MD\n&END MOTION\n".toList ∧
+    updateInput "&MOTION\n  &MD\n    STEPS 10\n    FOO\n  &END MD\n&END MOTION\n".toList [updNone] [] =
+      .ok "&MOTION\n  &MD\n    STEPS 10\n    FOO\n  &END MD\n&END MOTION\n".toList := by
+  constructor <;> decide
+
+/-- a created section keeps its values: `MD 5` -/
+theorem cp2k_fixed_new_section_keeps_values :
+    updateInput tplMD [updEach] [] =
+      .ok "&MOTION\n  &MD\n    STEPS 10\n  &END MD\n  &PRINT\n    &EACH\n      MD 5\n    &END EACH\n  &END PRINT\n&END MOTION\n".toList := by
+  decide
+
+/-- replace without a "settings" entry leaves the section parameters alone: `&K Y` stays -/
+theorem cp2k_fixed_replace_keeps_settings :
+    updateInput tplKY [updReplace] [] = .ok "&A\n  &K Y\n    W 9\n  &END K\n&END A\n".toList := by
+  decide
+
+/-! #### historical record: the code BEFORE fix 6e4f7f3 (`…AsIs` copies of the functions the fix touched)
+
+`mergeOldAsIs` printed `f"{key} {data[key]}"` also for `None`; `update_cp2k_input` defaulted "settings" to `[]`;
+`update_node` did `node.settings += settings`; `_add_node` stored `list(data)` (the dict keys). -/
+
+def valStrAsIs : Option Str → Str
+  | none => ['N', 'o', 'n', 'e']
+  | some v => v
+
+def mergeOldAsIs (data : List (Str × Option Str)) (isList : Bool) : List Str → Except Err (List Str × List Str)
+  | [] => .ok ([], [])
+  | line :: t =>
+    match firstTok line with
+    | none => .error .index
+    | some key =>
+      match dget key data with
+      | some v =>
+        if isList then .error .type
+        else
+          match mergeOldAsIs data isList t with
+          | .error e => .error e
+          | .ok (ls, done) => .ok ((key ++ [' '] ++ valStrAsIs v) :: ls, key :: done)
+      | none =>
+        match mergeOldAsIs data isList t with
+        | .error e => .error e
+        | .ok (ls, done) => .ok (line :: ls, done)
+
+def mergeDataAsIs (u : Upd) (old : List Str) : Except Err (List Str) :=
+  match mergeOldAsIs u.data u.isList old with
+  | .error e => .error e
+  | .ok (ls, done) =>
+    match mergeNew u.isList done u.data with
+    | .error e => .error e
+    | .ok app => .ok (ls ++ app)
+
+def updateNodeAsIs (u : Upd) (st : St) : Except Err St :=
+  match dget u.target st.ref with
+  | none => addNode (splitArrow u.target).reverse (u.settings.getD []) (u.data.map (·.1)) st
+  | some i =>
+    match st.arena[i]? with
+    | none => .error .attr
+    | some n =>
+      if u.replace then
+        .ok { st with arena := st.arena.set i { n with data := u.data.map (·.1), settings := u.settings.getD [] } }
+      else
+        match mergeDataAsIs u n.data with
+        | .error e => .error e
+        | .ok nd => .ok { st with arena := st.arena.set i { n with data := nd, settings := n.settings ++ u.settings.getD [] } }
+
+def applyUpdatesAsIs : List Upd → St → Except Err St
+  | [], st => .ok st
+  | u :: us, st =>
+    match updateNodeAsIs u st with
+    | .error e => .error e
+    | .ok st' => applyUpdatesAsIs us st'
+
+def updateInputAsIs (text : Str) (ups : List Upd) (rems : List Str) : Except Err Str :=
+  match readText text with
+  | .error e => .error e
+  | .ok rs =>
+    match applyUpdatesAsIs ups rs.toSt with
+    | .error e => .error e
+    | .ok st1 =>
+      match applyRemoves rems st1 with
+      | .error e => .error e
+      | .ok st => .ok (printText st)
+
+/-- (former finding C19:cp2k:settings-appended-twice) `&MD X`, then `&MD X X` -/
+theorem cp2k_asIs_settings_appended_twice :
+    updateInputAsIs tplMD [updSettings] [] = .ok "&MOTION\n  &MD X\n    STEPS 10\n  &END MD\n&END MOTION\n".toList ∧
+    updateInputAsIs "&MOTION\n  &MD X\n    STEPS 10\n  &END MD\n&END MOTION\n".toList [updSettings] [] =
       .ok "&MOTION\n  &MD X X\n    STEPS 10\n  &END MD\n&END MOTION\n".toList := by
   constructor <;> decide
 
-/-- `stMD` after one application of `updSettings` -/
-def stMDX : St :=
-  { stMD with arena := [ { title := "MOTION".toList, parent := none, settings := [], data := [], children := [1], level := 0 },
-               { title := "MD".toList, parent := some 0, settings := ["X".toList], data := ["STEPS 10".toList], children := [], level := 1 } ] }
-
-/-- the unguarded idempotence statement is false (negation of `cp2k_edit_idempotent_partial` without `hg`) -/
-theorem cp2k_edit_idempotent_unguarded_false :
-    ¬ (∀ (u : Upd) (st st1 : St) (i : Nat), dget u.target st.ref = some i → updateNode u st = .ok st1 →
-        updateNode u st1 = .ok st1) := by
-  intro h
-  have h1 : updateNode updSettings stMD = .ok stMDX := by decide
-  have h2 := h updSettings stMD stMDX 1 (by decide) h1
-  revert h2
-  decide
-
-def updNone : Upd :=
-  { target := "MOTION->MD".toList, settings := [], replace := false, data := [("FOO".toList, none)], isList := false }
-
-/-- COUNTEREXAMPLE (idempotence, `None` value): the first application appends the bare key `FOO`, the second
-    one finds the key and rewrites the line to `FOO None`. -/
-theorem cp2k_edit_idempotent_none_counterexample :
-    updateInput tplMD [updNone] [] = .ok "&MOTION\n  &MD\n    STEPS 10\n    FOO\n  &END MD\n&END MOTION\n".toList ∧
-    updateInput "&MOTION\n  &MD\n    STEPS 10\n    FOO\n  &END MD\n&END MOTION\n".toList [updNone] [] =
+/-- (former finding C19:cp2k:none-value-printed-as-None) `FOO`, then `FOO None` -/
+theorem cp2k_asIs_none_value :
+    updateInputAsIs tplMD [updNone] [] = .ok "&MOTION\n  &MD\n    STEPS 10\n    FOO\n  &END MD\n&END MOTION\n".toList ∧
+    updateInputAsIs "&MOTION\n  &MD\n    STEPS 10\n    FOO\n  &END MD\n&END MOTION\n".toList [updNone] [] =
       .ok "&MOTION\n  &MD\n    STEPS 10\n    FOO None\n  &END MD\n&END MOTION\n".toList := by
   constructor <;> decide
 
-def updEach : Upd :=
-  { target := "MOTION->PRINT->EACH".toList, settings := [], replace := false,
-    data := [("MD".toList, some "5".toList)], isList := false }
-
-/-- WITNESS (requested value lost): a target that does not exist is created with `list(data)`, i.e. with the
-    dict KEYS only — the requested `MD 5` is printed as `MD` (this is what `cp2k_edit_exact_absent` states in
-    general: `nn.data = u.data.map (·.1)`). -/
-theorem cp2k_new_section_drops_values_witness :
-    updateInput tplMD [updEach] [] =
+/-- (former finding C19:cp2k:new-section-drops-values) the requested `MD 5` was printed as `MD` -/
+theorem cp2k_asIs_new_section_drops_values :
+    updateInputAsIs tplMD [updEach] [] =
       .ok "&MOTION\n  &MD\n    STEPS 10\n  &END MD\n  &PRINT\n    &EACH\n      MD\n    &END EACH\n  &END PRINT\n&END MOTION\n".toList := by
   decide
+
+/-- (former finding C19:cp2k:replace-wipes-settings) `&K Y` became `&K` -/
+theorem cp2k_asIs_replace_wipes_settings :
+    updateInputAsIs tplKY [updReplace] [] = .ok "&A\n  &K\n    W 9\n  &END K\n&END A\n".toList := by
+  decide
+
+/-! #### open findings (not touched by the fix) -/
 
 /-- three same-titled siblings -/
 def tpl3 : Str := "&A\n&K X\n&END\n&K Y\n&END\n&K Z\n&END\n&END\n".toList
 
 def updZ : Upd :=
-  { target := "A->K->Z".toList, settings := [], replace := false, data := [("V".toList, some "9".toList)], isList := false }
+  { target := "A->K->Z".toList, settings := none, replace := false, data := [("V".toList, some "9".toList)], isList := false }
 
 /-- COUNTEREXAMPLE (exactness with three duplicates): after `set_parents` the third `&K` is registered under the
     bare path `A->K`, the key `A->K->Z` does not exist, and an update addressed to `A->K->Z` creates a new
@@ -879,7 +1090,22 @@ theorem cp2k_three_duplicates_counterexample :
     (readText tpl3).map (fun rs => rs.toSt.ref) =
       .ok [("A".toList, 0), ("A->K->X".toList, 1), ("A->K->Y".toList, 2), ("A->K".toList, 3)] ∧
     updateInput tpl3 [updZ] [] =
-      .ok "&A\n  &K X\n  &END K\n  &K Y\n  &END K\n  &K Z\n    &Z\n      V\n    &END Z\n  &END K\n&END A\n".toList := by
+      .ok "&A\n  &K X\n  &END K\n  &K Y\n  &END K\n  &K Z\n    &Z\n      V 9\n    &END Z\n  &END K\n&END A\n".toList := by
+  constructor <;> decide
+
+/-- two same-titled siblings with a target THROUGH the suffixed address -/
+def tpl2 : Str := "&A\n&K X\n&END\n&K Y\n&END\n&END\n".toList
+
+def updThrough : Upd :=
+  { target := "A->K->X->NEW".toList, settings := none, replace := false, data := [], isList := false }
+
+/-- COUNTEREXAMPLE (idempotence, finding duplicate-children-unaddressable): descendants of disambiguated
+    duplicates are registered without the suffix, so `A->K->X->NEW` is absent again on the second application
+    and a second `&NEW` is created. -/
+theorem cp2k_duplicate_children_counterexample :
+    updateInput tpl2 [updThrough] [] = .ok "&A\n  &K X\n    &NEW\n    &END NEW\n  &END K\n  &K Y\n  &END K\n&END A\n".toList ∧
+    updateInput "&A\n  &K X\n    &NEW\n    &END NEW\n  &END K\n  &K Y\n  &END K\n&END A\n".toList [updThrough] [] =
+      .ok "&A\n  &K X\n    &NEW\n    &END NEW\n    &NEW\n    &END NEW\n  &END K\n  &K Y\n  &END K\n&END A\n".toList := by
   constructor <;> decide
 
 /-- WITNESS (removed children stay addressable): after `remove_node("MOTION")` the key `MOTION->MD` is still in
@@ -894,23 +1120,29 @@ theorem cp2k_removed_children_witness :
 /-! non-vacuity of the hypotheses of the general theorems -/
 
 def updMerge : Upd :=
-  { target := "MOTION->MD".toList, settings := [], replace := false,
-    data := [("STEPS".toList, some "20".toList), ("TIMESTEP".toList, some "0.5".toList)], isList := false }
+  { target := "MOTION->MD".toList, settings := some ["X".toList, "X".toList], replace := false,
+    data := [("STEPS".toList, some "20".toList), ("TIMESTEP".toList, none)], isList := false }
 
 example : ∃ st', updateNode updMerge stMD = .ok st' ∧ st'.arena[1]? = some
-    { title := "MD".toList, parent := some 0, settings := [], data := ["STEPS 20".toList, "TIMESTEP 0.5".toList],
-      children := [], level := 1 } := by
+    { title := "MD".toList, parent := some 0, settings := ["X".toList, "X".toList],
+      data := ["STEPS 20".toList, "TIMESTEP".toList], children := [], level := 1 } := by
   obtain ⟨st', h, _, _, _, _, h5⟩ := cp2k_edit_exact_present updMerge stMD 1 _ (by decide) rfl (Or.inr ⟨rfl, by decide⟩)
   exact ⟨st', h, by rw [h5]; decide⟩
 
 example : RefOk stMD ∧ dget updEach.target stMD.ref = none := ⟨refOk_of_all _ (by decide), by decide⟩
 
-example : DataOk updMerge.data := ⟨by decide, by decide, by decide⟩
+example : DataOk updMerge.data ∧ DataOk updEach.data := ⟨⟨by decide, by decide⟩, ⟨by decide, by decide⟩⟩
 
+/-- idempotence with non-empty settings (even repeated inside the request) and a `None` value -/
 example : ∃ st1, updateNode updMerge stMD = .ok st1 ∧ updateNode updMerge st1 = .ok st1 := by
   obtain ⟨st1, h1⟩ : ∃ st1, updateNode updMerge stMD = .ok st1 := ⟨_, rfl⟩
-  exact ⟨st1, h1, cp2k_edit_idempotent_partial updMerge stMD st1 1 (by decide) h1
-    (Or.inr ⟨rfl, rfl, ⟨by decide, by decide, by decide⟩⟩)⟩
+  exact ⟨st1, h1, cp2k_edit_idempotent updMerge stMD st1 1 (by decide) h1 (Or.inr (Or.inr ⟨by decide, by decide⟩))⟩
+
+/-- absent → present -/
+example : ∃ st1, updateNode updEach stMD = .ok st1 ∧ updateNode updEach st1 = .ok st1 := by
+  obtain ⟨st1, h1⟩ : ∃ st1, updateNode updEach stMD = .ok st1 := ⟨_, rfl⟩
+  exact ⟨st1, h1, cp2k_edit_idempotent_absent updEach stMD st1 (refOk_of_all _ (by decide)) (by decide) rfl rfl
+    ⟨by decide, by decide⟩ h1⟩
 
 /-- the arena read from `tpl3`: nodes 1, 2, 3 are the three `&K`; hypotheses of `register_third_bare` hold -/
 def arena3 : List Node :=
@@ -927,7 +1159,6 @@ example : pathKey arena3 2 = pathKey arena3 1 ∧ pathKey arena3 3 = pathKey are
     settingsKey arena3 3 ≠ settingsKey arena3 1 ∧ settingsKey arena3 3 ≠ settingsKey arena3 2 := by decide
 
 example : (stMD.ref.map (·.1)).Nodup ∧ removeNode "MOTION->MD".toList stMD ≠ .ok stMD := by decide
-
 
 /-! ### tokens, strip and the header line -/
 
